@@ -45,7 +45,7 @@ def _dd_ensures(C, res):
                                               [MP(res.raw(k).t, res.raw(k2).t)]))]
     e = C._e
     if C.has('F'):
-        so, vg, mi = e.last_sorted, e.last_groupby, C.F.mi
+        so, vg, mi = C.note('last_sorted'), C.note('last_groupby'), C.F.mi
         src = lambda k: so['pi'](mi[k])               # index in the input of output element k
         rep = lambda x: vg.grp(so['pinv'](x))         # output index representing input element x
         cl += [('every_output_is_an_input_pair', forall(k, z3.Implies(rng(0, k, res.len), z3.And(
@@ -69,6 +69,7 @@ def _dd_ensures(C, res):
                    [MP(res.raw(k).t, X.raw(x).t)]))]
         C._e.last_dedupe = dict(src=srcf, rep=repf)
         C._e.dedupe_log.append(C._e.last_dedupe)
+        C._st.notes['dedupe_log'] = C._st.notes.get('dedupe_log', ()) + (C._e.last_dedupe,)
     return cl
 
 
@@ -95,7 +96,8 @@ def _d2_ensures(C, res):
     qid = lambda p: p.query.siteId
     member = z3.Function(fresh_name('d2_src'), z3.IntSort(), z3.IntSort())
     if C.has('F'):
-        d1, d2 = C._e.dedupe_log[-2], C._e.dedupe_log[-1]
+        dl = C.note('dedupe_log')
+        d1, d2 = dl[-2], dl[-1]
         memb = lambda k: d1['src'](d2['src'](k))
     else:
         memb = lambda k: member(k)
